@@ -1406,6 +1406,7 @@ std::string Generator::GeneratorImpl::generateCode(const AnalyserEquationAstPtr 
 
             if (isRelationalOperator(astLeftChild)
                 || isLogicalOperator(astLeftChild)
+                || ((astLeftChild->type() == AnalyserEquationAst::Type::NOT) && mProfile->hasNotOperator())
                 || isPlusOperator(astLeftChild)
                 || isMinusOperator(astLeftChild)
                 || isTimesOperator(astLeftChild)
